@@ -137,6 +137,9 @@ def BTreeExtension(family):
         kwargs["depends"] = base_btrees_depends
     if key != "O":
         kwargs["define_macros"] = [('EXCLUDE_INTSET_SUPPORT', None)]
+    if os.environ.get("BTREES_VERIF"):
+        # verification hooks (see BTreeModuleTemplate.c), off by default
+        kwargs.setdefault("define_macros", []).append(('BTREES_VERIF', '1'))
     return Extension(name, sources, **kwargs)
 
 
